@@ -223,4 +223,32 @@ theorem newMessageIDT_eq (n y : Nat) :
   rw [e1, e2, e4, orNonneg_shift]
   rfl
 
+/-- The decidable statement `holds` is true of every connection run. -/
+theorem holdsFrom_obsFrom (secs : List (Int × Bool)) : ∀ (s : Conn) (prev : Option Nat),
+    (prev = none ∨ prev = some (newMessageID s.nano 0)) →
+    holdsFrom prev s.sent (obsFrom s secs) = true := by
+  induction secs with
+  | nil => intro s prev _; rfl
+  | cons p rest ih =>
+    intro s prev hprev
+    obtain ⟨c, f⟩ := p
+    simp only [obsFrom, holdsFrom]
+    have hid : (nextMsgSeq s c f).2.1 = newMessageID (genNext s.nano c) 0 := by
+      simp [nextMsgSeq, yieldOf_client]
+    have hnano : (nextMsgSeq s c f).1.nano = genNext s.nano c := by simp [nextMsgSeq]
+    have hlt : newMessageID s.nano 0 < newMessageID (genNext s.nano c) 0 :=
+      newMessageID_lt _ _ _ _ (genNext_clear_lt s.nano c) (by omega) (by omega)
+    have hmod : newMessageID (genNext s.nano c) 0 % 4 = 0 := newMessageID_mod4 _ 0 (by omega)
+    have hrec := ih (nextMsgSeq s c f).1 (some (nextMsgSeq s c f).2.1) (Or.inr (by rw [hid, hnano]))
+    have hsent : (nextMsgSeq s c f).1.sent = if f then s.sent + 1 else s.sent := by
+      cases f <;> simp [nextMsgSeq, nextSeq]
+    have hseq : (nextMsgSeq s c f).2.2 = 2 * s.sent + (if f then 1 else 0) := by
+      cases f <;> simp [nextMsgSeq, nextSeq, Facts.C08.seqFactor] <;> omega
+    rw [hsent] at hrec
+    rw [hrec, hid, hseq]
+    simp only [hmod, decide_true, Bool.and_true]
+    rcases hprev with h | h
+    · subst h; simp
+    · subst h; simp [hlt]
+
 end TdModel.C08
